@@ -87,6 +87,7 @@ type hist struct {
 	lastDeliver     string // why the last delivery made node and reference disagree ("" = they agree)
 	lastNode        string // the node's verdict on the last delivered block
 	pendingFindings []finding
+	lastSub         *genTx // the tx being / last submitted
 	maxEvNet        int
 }
 
@@ -129,7 +130,11 @@ func childMain(args []string) {
 			if r := recover(); r != nil {
 				st := string(debug.Stack())
 				fn := firstTxpoolFrame(st)
-				cls := "panic/" + fn
+				fam := ""
+				if h.lastSub != nil {
+					fam = "fam:" + h.lastSub.family + "/"
+				}
+				cls := "panic/" + fam + fn
 				if fn == "outside-txpool" {
 					// a panic of the harness itself is not a verdict about txpool
 					if !strings.Contains(st, "gocoin/") {
@@ -138,7 +143,7 @@ func childMain(args []string) {
 						fmt.Fprintln(os.Stderr, "HARNESS PANIC", r, st)
 						return
 					}
-					cls = "panic/" + slug(fmt.Sprint(r))
+					cls = "panic/" + fam + slug(fmt.Sprint(r))
 				}
 				run.Violation(cls, fmt.Sprintf("panic while txpool processed step %d (%s): %v", h.step, h.kind, r), h.witness(nil, map[string]interface{}{"panic": fmt.Sprint(r), "stack": cut(st, 3000)}))
 				status = "violation"
@@ -327,6 +332,7 @@ func (h *hist) submit(x *genTx, path string) int {
 		hexs = fmt.Sprintf("big:%d:%s...", len(x.raw), hexs[:200])
 	}
 	h.note("submit %s family=%s path=%s raw=%s", x.id, x.family, path, hexs)
+	h.lastSub = x
 	res := -1
 	tx, le := btc.NewTx(x.raw)
 	if tx == nil || le != len(x.raw) || len(tx.TxIn) < 1 {
@@ -380,6 +386,9 @@ func (h *hist) submit(x *genTx, path string) int {
 	rs := "accepted"
 	if res != 0 {
 		rs = txpool.ReasonToString(byte(res))
+		if res == txpool.TX_REJECTED_SCRIPT_FAIL {
+			rs = "SCRIPT_FAIL"
+		}
 		if res == 255 {
 			rs = "rejected-not-recorded"
 		}
@@ -389,7 +398,7 @@ func (h *hist) submit(x *genTx, path string) int {
 	h.run.Inc("result/" + rs)
 	h.outcome(x, path, rs)
 	if x.badScript && res == 0 && path == "net" {
-		h.pendingFindings = append(h.pendingFindings, finding{class: "pool-accepts/invalid-script/" + x.family,
+		h.pendingFindings = append(h.pendingFindings, finding{head: "pool-accepts-invalid-script", detail: "fam:" + x.family,
 			what: fmt.Sprintf("tx %s with a script that fails by construction was accepted from the untrusted network path", x.id)})
 	}
 	return res
@@ -472,6 +481,22 @@ func (h *hist) witness(fs []finding, extra map[string]interface{}) map[string]in
 	return w
 }
 
+// classOf: head [/fam:<generator family of the tx the finding is about>] [/detail]
+func (h *hist) classOf(f finding) string {
+	c := f.head
+	if len(f.txs) > 0 && f.txs[0] != nil {
+		fam := "not-generated-by-harness-directly"
+		if g := h.gen[f.txs[0].id]; g != nil {
+			fam = g.family
+		}
+		c += "/fam:" + fam
+	}
+	if f.detail != "" {
+		c += "/" + f.detail
+	}
+	return c
+}
+
 // check runs the walker and reports. Returns false when the history must stop.
 func (h *hist) check(full bool) bool {
 	v, fs := h.walk(full)
@@ -491,14 +516,14 @@ func (h *hist) check(full bool) bool {
 	seen := map[string]bool{}
 	var all []string
 	for _, f := range fs {
-		all = append(all, f.class)
+		all = append(all, h.classOf(f))
 	}
-	for _, f := range fs {
-		if seen[f.class] {
+	for i, f := range fs {
+		if seen[all[i]] {
 			continue
 		}
-		seen[f.class] = true
-		h.run.Violation(f.class, f.what, h.witness([]finding{f}, map[string]interface{}{"all_classes_at_this_step": all}))
+		seen[all[i]] = true
+		h.run.Violation(all[i], f.what, h.witness([]finding{f}, map[string]interface{}{"all_classes_at_this_step": all}))
 	}
 	h.run.ExportState(h.base + ".state")
 	h.stopped = true
